@@ -10,7 +10,10 @@ Monitors
     exactly, without statistics;
  3. distributional: for 1-D flows the empirical CDF of 2e5 (2e6) samples is compared (Kolmogorov-Smirnov,
     alpha = 1e-9) with the CDF obtained by cumulative quadrature of exp(log_prob); the recorded noise is tested
-    against the base's own density the same way."""
+    against the base's own density the same way;
+ 4. block law: for conditional distributions and flows over conditional bases, block i of sample(n, ctx) is compared
+    with the single-row call sample(n, ctx[i:i+1]) (which cannot mix rows up) through the statistic
+    log p(x|c_i) - log p(x|c_j): two-sample z-test (8 sigma) + two-sample KS (alpha = 1e-9) + Gibbs' inequality."""
 import numpy as np
 import torch
 
@@ -23,7 +26,7 @@ RULE = ("flow = typed program (as in C03) or packaged flow, x context (none, 1-4
         "monitor) is non-trivial when the compared samples differ between context rows / draws (the flow is not degenerate)")
 ASSUMPTIONS = ["pairing / replay tolerance 1e-6*(1+|value|) in float64 (the two paths differ by an inverse-forward round trip), items "
                "whose log-prob magnitude exceeds 50 are ill-conditioned and skipped", "KS at alpha = 1e-9 on 2e5 draws: D_crit = 0.0073"]
-REQUIRED_COUNTS = ["pairing_rows", "noise_replay_rows", "ks_tests"]
+REQUIRED_COUNTS = ["pairing_rows", "noise_replay_rows", "ks_tests", "block_pair_tests", "block_sets_with_distinguishable_rows"]
 BUDGET = {"case_timeout": {"quick": 600, "thorough": 3600}}
 TOL = 1e-6
 
@@ -44,6 +47,26 @@ def gen_cases(tier, seed):
     for i in range(16 if tier == "quick" else 300):
         cases.append({"kind": "ks", "cfg": dzoo.sample_program_flow(rng, 1), "seed": env.subseed(seed, "c04k", i), "world": "f64",
                       "nsamp": 200000 if tier == "quick" else 2000000, "cost": 8})
+    # block routing of conditional subjects (raw conditional distributions and flows over a conditional base)
+    nb = 24 if tier == "quick" else 600
+    for i in range(nb):
+        if i % 2 == 0:
+            dc = dzoo.sample_dist_cfg(rng, [["cond_diag", "mademog", "bernoulli"][(i // 2) % 3]])
+            if dc["dist"] == "mademog":
+                dc["ctx"] = 2
+                dc["narrow"] = False
+            cases.append({"kind": "blocks", "subject": "dist", "cfg": dc, "seed": env.subseed(seed, "c04b", i), "world": "f64",
+                          "nsamp": 1500 if tier == "quick" else 6000, "cost": 4})
+        else:
+            fc = None
+            for _ in range(200):
+                fc = dzoo.sample_program_flow(rng, 1 if i % 4 == 1 else 2)
+                if fc["ctx"]:
+                    break
+            if not fc["ctx"]:
+                continue
+            cases.append({"kind": "blocks", "subject": "flow", "cfg": fc, "seed": env.subseed(seed, "c04b", i), "world": "f64",
+                          "nsamp": 1500 if tier == "quick" else 6000, "cost": 5})
     return cases
 
 
@@ -94,9 +117,101 @@ class NoiseRecorder:
         del self.dist.sample_and_log_prob
 
 
+def run_blocks(r, case):
+    """sample(n, ctx)[i] must have the law of sample(n, ctx[i:i+1])[0]: the single-row call cannot mix rows up, so it is the
+    reference; the 1-D statistic d_ij(x) = log p(x|c_i) - log p(x|c_j) is compared between the two (two-sample z-test on the
+    mean at 8 sigma and two-sample KS at alpha = 1e-9), and Gibbs' inequality E_{p_i}[d_ij] >= 0 is asserted on the joint block."""
+    cfg, seed, n = case["cfg"], case["seed"], case["nsamp"]
+    g = torch.Generator().manual_seed(seed)
+    if case["subject"] == "dist":
+        obj = dzoo.build_dist(cfg, seed, pscale=1.5)
+        label = "dist_" + cfg["dist"]
+        w = cfg["ctx"]
+    else:
+        obj = make_flow(cfg, seed)
+        label = "flow/%s%s" % (cfg.get("base", "standard"), "/embed" if cfg.get("embed") else "")
+        w = dzoo.embed_width(cfg) if cfg.get("embed") else cfg["ctx"]
+    obj.eval()
+    det = dict(subject=label, cfg=cfg)
+    gibbs_ok = case["subject"] == "dist" or cfg.get("data") in ("R", "pos")
+    for rows in (2, 3, 5):
+        nn_ = n + (1 if rows == 3 else 0)          # 1501 draws: not a multiple of 3
+        ctx = torch.randn(rows, w, generator=g) * 2.0
+        torch.manual_seed(seed + rows)
+        try:
+            with torch.no_grad():
+                joint = obj.sample(nn_, ctx)
+                single = [obj.sample(nn_, ctx[i:i + 1])[0] for i in range(rows)]
+        except Exception as e:
+            r.ev()
+            r.viol("sample_raises", "%s.sample raises on a valid call" % label, exc=repr(e)[:250], exc_type=type(e).__name__, rows=rows, **det)
+            return
+        if joint.shape[:2] != (rows, nn_):
+            r.ev()
+            r.viol("shape", "%s.sample returns the wrong leading shape" % label, got=list(joint.shape), expected_lead=[rows, nn_], **det)
+            return
+
+        def lp(x, i):
+            with torch.no_grad():
+                return obj.log_prob(x, ctx[i:i + 1].expand(x.shape[0], -1)).double()
+        crit = 3.2724 * (2.0 / nn_) ** 0.5
+        separated = False
+        for i in range(rows):
+            for j in range(rows):
+                if i == j:
+                    continue
+                try:
+                    dj = lp(joint[i], i) - lp(joint[i], j)
+                    ds = lp(single[i], i) - lp(single[i], j)
+                except Exception:
+                    r.count("block_logprob_raised")
+                    continue
+                ok = torch.isfinite(dj) & (dj.abs() < 1e6)
+                oks = torch.isfinite(ds) & (ds.abs() < 1e6)
+                if ok.float().mean() < 0.999 or oks.float().mean() < 0.999:
+                    r.count("block_pairs_skipped_nonfinite")
+                    continue
+                dj, ds = dj[ok], ds[oks]
+                r.ev(2)
+                r.count("block_pair_tests")
+                mj, ms = float(dj.mean()), float(ds.mean())
+                sej, ses = float(dj.std()) / len(dj) ** 0.5, float(ds.std()) / len(ds) ** 0.5
+                se = (sej ** 2 + ses ** 2) ** 0.5 + 1e-12
+                if ms > 6 * ses:
+                    separated = True
+                r.worst("block_mean_z/8", abs(mj - ms) / se / 8.0)
+                # KS between the two samples of the statistic
+                za, zb = torch.sort(dj).values, torch.sort(ds).values
+                allv = torch.cat([za, zb])
+                Dks = float((torch.searchsorted(za, allv, right=True).double() / len(za)
+                             - torch.searchsorted(zb, allv, right=True).double() / len(zb)).abs().max())
+                r.worst("block_ks/crit", Dks / crit)
+                if abs(mj - ms) > 8 * se or Dks > crit:
+                    r.viol("wrong_block_law", "%s.sample(n, context)[i] is not distributed like the draws for context row i alone" % label,
+                           context_row=i, against_row=j, rows=rows, n=nn_, mean_joint=mj, mean_single=ms, z=abs(mj - ms) / se,
+                           ks=Dks, ks_crit=crit, **det)
+                    return
+                # Gibbs needs log_prob to be the samples' exact density: not so inside the declared eps clamp of the
+                # Sigmoid / Logit data prefixes ((0,1) and (-1,1) data), where saturated samples sit on the clamp point
+                if gibbs_ok and mj < -8 * sej - 1e-9:
+                    r.viol("gibbs", "%s.sample(n, context)[i] prefers another context row's density (Gibbs' inequality broken)" % label,
+                           context_row=i, against_row=j, rows=rows, mean=mj, se=sej, **det)
+                    return
+        if separated:
+            r.cell(label, "blocks", rows)
+            r.count("block_sets_with_distinguishable_rows")
+    r.sample({"subject": label, "blocks_tested": True})
+
+
 def run_case(case):
     r = R(case)
     cfg, seed = case["cfg"], case["seed"]
+    if case["kind"] == "blocks":
+        try:
+            run_blocks(r, case)
+        except Exception as e:
+            r.inconc("harness failure: %r" % (e,))
+        return r.done()
     try:
         flow = make_flow(cfg, seed)
     except Exception as e:
